@@ -449,6 +449,13 @@ def str_line(it, eff):
 @prop('C14')
 def C14(run):
     broken = lean_gate(run, THEOREMS['C14'])
+    if not broken:
+        from props import gen_gate
+        broken = broken + gen_gate(run, 'translator_str', 'gen_str', 'programs',
+                                   'Gen.fixedStr = C14.fixedStrProg, Gen.guardedStr = C14.guardedStrProg by rfl; fixed_str_is_program, '
+                                   'guarded_str_is_program (lean/Props/C14Prog.lean)',
+                                   'Fixed.__str__ / Guarded.__str__ of droop/values, executed symbolically, are no longer the decision trees '
+                                   'lean/Props/C14Prog.lean proves equal to the model')
     rng = rng_for(run)
     items = []
     for _ in range(budget(run, 30000, 500000)):
